@@ -853,9 +853,28 @@ def s_float(x=0.0):
 
 
 def s_round(x, n=None):
+    """round half to even (Python / numpy semantics), exact on rationals; a symbolic real is rounded symbolically:
+    floor(x * 10^n + 1/2), minus one at an exact tie whose floor is odd"""
     import builtins
+    x = unwrap0(x)
+    if isinstance(x, (SInt, SBool)) or (isinstance(x, int) and not isinstance(x, bool)):
+        return x
+    if isinstance(x, SReal) and not isinstance(x, SLog):
+        k = 10 ** (n or 0)
+        y = x.z * k + z3.RealVal(1) / 2
+        fl = z3.ToInt(y)
+        tie = z3.And(z3.ToReal(fl) == y, fl % 2 != 0)
+        r = z3.If(tie, fl - 1, fl)
+        return _lift(r) if n is None else _lift(z3.ToReal(r) / k)
     if isinstance(x, Sym):
-        raise Inconclusive("round() of a symbolic value is not modelled")
+        raise Inconclusive("round() of this symbolic value is not modelled")
+    if isinstance(x, Fraction):
+        k = 10 ** (n or 0)
+        y = x * k
+        fl = y.numerator // y.denominator
+        rem = y - fl
+        r = fl + (1 if (rem > Fraction(1, 2) or (rem == Fraction(1, 2) and fl % 2 != 0)) else 0)
+        return r if n is None else Fraction(r, k)
     return builtins.round(x) if n is None else builtins.round(x, n)
 
 
